@@ -10,11 +10,13 @@ import (
 	"sort"
 	"strings"
 	"testing"
+	"time"
 
 	"github.com/AdguardTeam/AdGuardHome/internal/client"
 	"github.com/AdguardTeam/AdGuardHome/internal/dhcpsvc"
 	"github.com/AdguardTeam/golibs/logutil/slogutil"
 	"github.com/AdguardTeam/golibs/timeutil"
+	"gopkg.in/yaml.v3"
 )
 
 // C08, second harness: the REAL finder wrappers of clients.go (findMultiple,
@@ -192,6 +194,79 @@ func c08hCase(t *testing.T, out *vfOut, clients [][]string, flags [][2]bool, lea
 		c.FindingKey = "C08-" + key
 	}
 	out.Emit(c)
+	if panicked || len(added) == 0 {
+		return
+	}
+
+	// Save + restart of the clients container: the persistent clients as
+	// config.write stores them (forConfig, through YAML and back), loaded into
+	// a fresh storage as at start-up (toPersistent + Add).  The ignore flags
+	// must survive: the same request gets the same two verdicts, and the model
+	// (same registry) must agree with what the restarted container says.
+	var objs2 []*clientObject
+	var ignQ2, count2, panicked2 bool
+	rerr := ""
+	func() {
+		defer func() {
+			if rec := recover(); rec != nil {
+				panicked2 = true
+				rerr = fmt.Sprint(rec)
+			}
+		}()
+		yb, yerr := yaml.Marshal(cc.forConfig())
+		if yerr != nil {
+			rerr = yerr.Error()
+			return
+		}
+		if yerr = yaml.Unmarshal(yb, &objs2); yerr != nil {
+			rerr = yerr.Error()
+			return
+		}
+		stor2, serr := client.NewStorage(context.Background(), &client.StorageConfig{
+			Logger: slogutil.NewDiscardLogger(), Clock: timeutil.SystemClock{}, DHCP: d})
+		if serr != nil {
+			rerr = serr.Error()
+			return
+		}
+		for _, o := range objs2 {
+			p, perr := o.toPersistent(context.Background(), slogutil.NewDiscardLogger(), 100, time.Minute)
+			if perr == nil {
+				perr = stor2.Add(context.Background(), p)
+			}
+			if perr != nil {
+				rerr = perr.Error()
+				return
+			}
+		}
+		cc2 := &clientsContainer{storage: stor2, clientChecker: c08hChecker{}}
+		c2, _ := cc2.findMultiple(ids)
+		ignQ2 = c2 != nil && c2.IgnoreQueryLog
+		count2 = cc2.shouldCountClient(ids)
+	}()
+	mon2, key2 := "", ""
+	switch {
+	case panicked2:
+		mon2, key2 = "save + restart of the clients container panicked: "+rerr, "restart-panic"
+	case rerr != "":
+		mon2, key2 = "the saved clients could not be loaded again: "+rerr, "restart-load"
+	case ignQ2 != ignQ || count2 != count:
+		mon2 = fmt.Sprintf("ids %v: before the restart ignore_querylog=%v counted=%v, after saving and loading the clients ignore_querylog=%v counted=%v",
+			ids, ignQ, count, ignQ2, count2)
+		key2 = "ignore-flags-lost-by-restart"
+	}
+	c2 := vfCase{
+		Coq:     vfApp("CFinder", vfList("op", ops), vfList("(bytes * bytes) * bytes", tbl), vfList("id", coqIDs), vfBool(ignQ2), vfBool(count2)),
+		Classes: append([]string{"finder-after-restart"}, classes...), Nontrivial: ignQ2 || !count2, MonitorOK: mon2 == "", MonitorMsg: mon2,
+		Desc: map[string]any{"kind": tag + "-after-restart", "events": append(append([]string{}, desc...), "clients saved (forConfig, YAML) and loaded into a fresh container")},
+	}
+	if mon2 != "" {
+		c2.FindingKey = "C08-" + key2
+	}
+	if rerr != "" && !panicked2 {
+		// nothing was observed after the restart: monitor failure only
+		c2.Coq = c.Coq
+	}
+	out.Emit(c2)
 }
 
 func TestVerifC08Home(t *testing.T) {
